@@ -1,0 +1,42 @@
+//go:build verif
+
+package packet
+
+import (
+	"net"
+	"net/netip"
+)
+
+// Session entry points used by the DHCP handler (C08): total, and they keep the session
+// well-formed as the handlers need it (VerifSpecSessionOK).
+
+//verif:props C08
+func verif_contract_Session_IsCaptured(h *Session, mac net.HardwareAddr) bool {
+	vRequires(h != nil && spec_mactable_nonnil(h))
+	vCanary()
+	r := h.IsCaptured(mac)
+	return r
+}
+
+//verif:props C08
+func verif_contract_Session_SetDHCPv4IPOffer(h *Session, mac net.HardwareAddr, ip netip.Addr, name NameEntry) {
+	vRequires(VerifSpecSessionOK(h))
+	vCanary()
+	vModifiesObj(&h.MACTable)
+	vModifiesMems("elem:*github.com/irai/packet.MACEntry", "packet.MACEntry/")
+	h.SetDHCPv4IPOffer(mac, ip, name)
+	vEnsures(VerifSpecSessionOK(h))
+}
+
+// DHCPv4Update: total; the host lookup / creation it starts with is findOrCreateHostWithLock
+// (whose creation path is a TRUSTED case of that contract).
+//
+//verif:props C08
+func verif_contract_Session_DHCPv4Update(h *Session, mac net.HardwareAddr, ip netip.Addr, name NameEntry) error {
+	vRequires(VerifSpecSessionOK(h))
+	vCanary()
+	vModifiesMems("packet.Host", "packet.MACEntry", "packet.MACTable", "packet.Session/", "packet.NameEntry")
+	err := h.DHCPv4Update(mac, ip, name)
+	vEnsures(VerifSpecSessionOK(h))
+	return err
+}
